@@ -541,7 +541,67 @@ func deployStream(t *testing.T) {
 	r.Finish("real Calcium.CreateWorkload (AUTO/FILL/EACH over 3 nodes, 1-5 instances) with a probing store wrapper: the deployment's CreateProcessing / AddWorkload / RemoveWorkload / DeleteProcessing calls are serialised, optionally failed (one injected store or engine fault per deployment) and probed right after each call; the model must accept the call sequence create.go produced and reproduce every probe; non-trivial = at least one AddWorkload")
 }
 
+// ---------------------------------------------------------------- stream "race"
+
+// n goroutines call AddWorkload (record + decrement) on one marker of the real
+// etcd store at the same time: the compare-value retry loop must neither lose
+// nor duplicate a decrement (model: Calcium/DecrLoop.v).
+func raceStream(t *testing.T) {
+	r := vh.New(t, "C13", "race")
+	r.Coq("From Verif Require Import Calcium.DecrLoop.", "DecrLoop.case", "DecrLoop.agree", "DecrLoop.ok")
+	total := r.N(12, 200)
+	w, nodes := newWorld(t, "etcd")
+	defer w.Close()
+	pr := &prober{w: w, nodes: nodes}
+	st := w.RawStore
+	uniq := 0
+	for i := 0; i < total; i++ {
+		n := 2 + r.Rng.Intn(7)
+		k := n + r.Rng.Intn(3)
+		ident := fmt.Sprintf("race%04d", i)
+		node := nodes[r.Rng.Intn(len(nodes))]
+		p := &types.Processing{Appname: app, Entryname: entry, Nodename: node, Ident: ident}
+		if err := st.CreateProcessing(w.Ctx, p, k); err != nil {
+			t.Fatalf("race: CreateProcessing: %v", err)
+		}
+		before := len(pr.deployed())
+		var wg sync.WaitGroup
+		start := make(chan struct{})
+		errs := make([]error, n)
+		for j := 0; j < n; j++ {
+			uniq++
+			id := fmt.Sprintf("r%05d", uniq)
+			wg.Add(1)
+			go func(j int) {
+				defer wg.Done()
+				<-start
+				errs[j] = st.AddWorkload(w.Ctx, &types.Workload{ID: id, Name: fmt.Sprintf("%s_%s_%s", app, entry, id), Nodename: node, Podname: "p1"}, p)
+			}(j)
+		}
+		close(start)
+		wg.Wait()
+		for _, e := range errs {
+			if e != nil {
+				t.Fatalf("race: AddWorkload: %v", e)
+			}
+		}
+		markerAfter := 0
+		for _, m := range pr.markers() {
+			if m.Ident == ident {
+				markerAfter = m.Value
+			}
+		}
+		recorded := len(pr.deployed()) - before
+		term := fmt.Sprintf("(mkCase %s %s %s %s)", vh.ZI(k), vh.Nat(n), vh.ZI(markerAfter), vh.ZI(recorded))
+		r.Count(fmt.Sprintf("callers=%d", n))
+		r.Add(term, map[string]any{"k": k, "callers": n, "marker_after": markerAfter, "recorded": recorded}, map[string]any{"stream": "race"}, true)
+		_ = st.DeleteProcessing(w.Ctx, p)
+	}
+	r.Finish("n = 2..8 goroutines call AddWorkload with the same processing marker (value k >= n) on the real etcd store at the same moment; observed: marker value and number of new records afterwards")
+}
+
 func TestC13(t *testing.T) {
 	storeStream(t)
 	deployStream(t)
+	raceStream(t)
 }
